@@ -46,13 +46,13 @@ PROFILES = {
     "C03": {"w": _p(opx=22, op1=6, struct=6, mk_ce=2, measure=1, povm=0.5), "clients": (1, 1), "fault_rate": 0.0, "min_envs": 2},
     "C04": {"w": _p(measure=14, op1=10, opx=8, struct=5, povm=1), "clients": (1, 2), "fault_rate": 0.0},
     "C05": {"w": _p(measure=14, op1=9, opx=8, struct=5, povm=1, fault=2), "clients": (1, 2), "fault_rate": 0.12, "faults": ["use_destroyed"]},
-    "C06": {"w": _p(kraus=16, op1=8, opx=7, struct=5, measure=1), "clients": (1, 1), "fault_rate": 0.0},
-    "C07": {"w": _p(), "clients": (1, 2), "fault_rate": 0.0, "nonunitary": 0.3},
-    "C08": {"wide_rate": 0.0, "w": _p(struct=14, config=3, kraus=5, op1=10, opx=6), "clients": (1, 1), "fault_rate": 0.0, "struct_bias": "level", "no_estimator": True},
+    "C06": {"scen_bias": ("paulinoise", 0.12), "w": _p(kraus=16, op1=8, opx=7, struct=5, measure=1), "clients": (1, 1), "fault_rate": 0.0},
+    "C07": {"scen_bias": ("recombine", 0.1), "w": _p(), "clients": (1, 2), "fault_rate": 0.0, "nonunitary": 0.3},
+    "C08": {"scen_bias": ("weaknoise", 0.12), "wide_rate": 0.0, "w": _p(struct=14, config=3, kraus=5, op1=10, opx=6), "clients": (1, 1), "fault_rate": 0.0, "struct_bias": "level", "no_estimator": True},
     "C09": {"w": _p(povm=16, op1=9, opx=8, struct=5, measure=1, kraus=2), "clients": (1, 1), "fault_rate": 0.0},
     "C10": {"w": _p(resize=14, op1=12, opx=5, struct=5, kraus=2, measure=1), "clients": (1, 1), "fault_rate": 0.15, "faults": ["shrink_below_support"], "fock_bias": True},
     "C11": {"w": _p(opx=16, op1=10, struct=5, measure=2, kraus=1, povm=0.3, resize=1), "clients": (1, 1), "fault_rate": 0.0, "fock_bias": True, "optics": True, "min_envs": 2},
-    "C13": {"w": _p(mk_ce=8, measure=8, struct=8, opx=8, op1=4, povm=2), "clients": (2, 3), "fault_rate": 0.0, "min_envs": 2},
+    "C13": {"scen_bias": ("lopsided", 0.12), "w": _p(mk_ce=8, measure=8, struct=8, opx=8, op1=4, povm=2), "clients": (2, 3), "fault_rate": 0.0, "min_envs": 2},
     "C14": {"wide_rate": 0.0, "w": _p(measure=10, povm=5, op1=10, opx=8, struct=4, config=0), "clients": (1, 2), "fault_rate": 0.0},
     "C15": {"wide_rate": 0.0, "w": _p(op1=14, opx=10, mk_op=4, struct=4, measure=1, kraus=2), "clients": (1, 2), "fault_rate": 0.0, "reuse": True},
     "C17": {"w": _p(fault=0), "clients": (1, 2), "fault_rate": 0.25},
@@ -129,6 +129,8 @@ class Gen:
             r["dims"] = dims
         if rng.random() < 0.25:
             r["explicit"] = True  # Envelope(fock=Fock(), polarization=Polarization(label))
+            if rng.random() < 0.3:
+                r["subclass"] = True  # user subclasses of Envelope, Fock and Polarization
         return r
 
     def _new_custom(self, client, d=None):
@@ -137,7 +139,10 @@ class Gen:
         self.next_custom += 1
         d = d or rng.choice([2, 3, 3, 4])
         self.client_customs.setdefault(client, []).append(name)
-        return {"do": "mk_custom", "name": name, "client": client, "d": d, "label": rng.choice([0, 0, 1])}
+        r = {"do": "mk_custom", "name": name, "client": client, "d": d, "label": rng.choice([0, 0, 1])}
+        if rng.random() < 0.2:
+            r["subclass"] = True  # class QuantumDot(CustomState)
+        return r
 
     def _new_ce(self, client, of):
         name = f"ce{self.next_ce}"
@@ -169,11 +174,13 @@ class Gen:
                 scen = "equalmeasure"
             if (self.prof.get("reuse") or self.prof.get("fock_bias")) and not self.prof.get("no_estimator") and c == 0 and rng.random() < 0.08:
                 scen = "rephase"
+            if c == 0 and self.prof.get("scen_bias") and rng.random() < self.prof["scen_bias"][1]:
+                scen = self.prof["scen_bias"][0]
             if c == 0 and self.prof.get("scenario"):
                 scen = self.prof["scenario"]
             elif c == 0 and rng.random() < self.prof.get("wide_rate", 0.0):
                 scen = "wide"
-            if scen == "wide":
+            if scen in ("wide", "long"):
                 self.max_steps = min(self.max_steps, 6)
             if scen:
                 q.extend(self._scenario(scen, c))
@@ -325,6 +332,72 @@ class Gen:
             pool = [B + ".p", A + ".p", A + ".f", B + ".f", C + ".p", C + ".f"]
             on = rng.sample(pool, rng.choice([2, 2, 3]))
             q.append({"do": "measure", "entry": "ce", "ce": ce["name"], "on": on, "sep": False, "destr": rng.random() < 0.4, "style": rng.choice(["kw", "min"]), "client": c})
+        elif scen == "long":
+            # one product space with MANY members of tiny dimension (idle vacuum modes have cut-off 1):
+            # index bookkeeping beyond 26 subsystems (einsum subscripts, digit counts) at negligible size
+            n = rng.choice([23, 24, 25, 26, 27])
+            idle = [self._new_env(c, fock=0, pol="H") for _ in range(n)]
+            for e in idle:
+                e.pop("dims", None)
+                e.pop("explicit", None)
+            ph = [self._new_env(c, fock=1, pol="H") for _ in range(2)]
+            for e in ph:
+                e.pop("dims", None)
+            ce = self._new_ce(c, [e["name"] for e in idle + ph])
+            q += idle + ph + [ce]
+            F = [e["name"] + ".f" for e in idle]
+            eta = round(rng.uniform(0.3, 1.2), 6)
+            for i in range(n - 1):
+                q.append(op({"t": "X.BS", "eta": eta}, "ce", [F[i], F[i + 1]], ce=ce["name"]))
+            p0, p1 = ph[0]["name"] + ".f", ph[1]["name"] + ".f"
+            q.append(op({"t": "X.BS", "eta": eta}, "ce", [p0, F[0]], ce=ce["name"]))
+            q.append(op({"t": "X.BS", "eta": round(eta / 2, 6)}, "ce", [p1, F[1]], ce=ce["name"]))
+            q.append(op({"t": "X.BS", "eta": round(-eta, 6)}, "ce", [F[2], p0], ce=ce["name"]))
+            q.append(op({"t": "F.PhaseShift", "phi": th}, rng.choice(["state", "ce"]), [p1], ce=ce["name"]))
+            q.append({"do": "trace_out", "entry": "ce", "ce": ce["name"], "on": [p0, p1, F[0]], "client": c})
+            q.append({"do": "measure", "entry": "ce", "ce": ce["name"], "on": [p0], "sep": True, "destr": True, "client": c})
+            q.append(op({"t": "X.BS", "eta": eta}, "ce", [p1, F[3]], ce=ce["name"]))
+        elif scen == "lopsided":
+            # a merge in which the composite that is appended has MORE product spaces than the one it
+            # is appended to, then work on the appended product spaces (reorder, consume one)
+            A = [self._new_env(c) for _ in range(2)]
+            B = [self._new_env(c) for _ in range(rng.choice([4, 4, 6]))]
+            q += A + B
+            ca = self._new_ce(c, [e["name"] for e in A])
+            cb = self._new_ce(c, [e["name"] for e in B])
+            q += [ca]
+            if rng.random() < 0.8:
+                q.append(op({"t": "P.RY", "theta": th}, "state", [A[0]["name"] + ".p"]))
+                q.append(op({"t": "X.CX"}, "ce", [A[0]["name"] + ".p", A[1]["name"] + ".p"], ce=ca["name"]))
+            q += [cb]
+            for i in range(0, len(B), 2):
+                q.append(op({"t": "P.RX", "theta": round(th / (i + 1), 6)}, "state", [B[i]["name"] + ".p"]))
+                q.append(op({"t": "X.CX"}, "ce", [B[i]["name"] + ".p", B[i + 1]["name"] + ".p"], ce=cb["name"]))
+            first, second = (ca, cb) if rng.random() < 0.75 else (cb, ca)
+            m = self._new_ce(c, [first["name"], second["name"]])
+            q.append(m)
+            k = rng.choice(range(0, len(B), 2))
+            x, y = B[k]["name"] + ".p", B[k + 1]["name"] + ".p"
+            q.append({"do": "ce.reorder", "ce": rng.choice([m["name"], cb["name"]]), "on": [y, x], "client": c})
+            q.append(op({"t": "P.RZ", "theta": th}, "state", [y]))
+            if rng.random() < 0.6:
+                q.append({"do": "povm", "entry": "ce", "ce": m["name"], "m": {"family": "dilation", "n": 2, "seed": rng.randint(1, 40)}, "on": [x, y], "destr": True, "client": c})
+            q.append(op({"t": "P.H"}, "state", [B[(k + 2) % len(B)]["name"] + ".p"]))
+        elif scen == "paulinoise":
+            # the textbook way to write noise on one photon for the whole envelope: kron of a Pauli set
+            # with the identity, every operator in the dtype its entries need (only Y is complex),
+            # applied to a fresh (real valued) envelope through the envelope or its composite
+            a, b = self._new_env(c, fock=rng.choice([0, 1, 1, 2])), self._new_env(c)
+            a["dims"] = a["fock"] + rng.choice([1, 2])
+            ce = self._new_ce(c, [a["name"], b["name"]])
+            q += [a, b, ce]
+            if rng.random() < 0.5:
+                q.append(op({"t": "P.RY", "theta": th}, "state", [a["name"] + ".p"]))  # real rotation
+            on = [a["name"] + ".p", a["name"] + ".f"]
+            rng.shuffle(on)
+            parts = [{"family": "depol", "p": round(rng.uniform(0.05, 0.9), 4)} if n_.endswith(".p") else {"family": rng.choice(["perm", "ampdamp", "jump"]), "seed": 1, "g": 0.3} for n_ in on]
+            ent = rng.choice(["env", "ce"])
+            q.append({"do": "kraus", "entry": ent, "env": a["name"], "ce": ce["name"], "ch": {"family": "prod", "parts": parts}, "on": on, "arr": rng.choice(["mixed", "npmixed"]), "client": c})
         elif scen == "weaknoise":
             # weak noise on one photon of an entangled pure state: purity deficits around the
             # library's "is it pure" tolerances
@@ -568,7 +641,8 @@ class Gen:
                 return {"t": "C.Custom", "d": d, "u": "contr", "seed": rng.randint(1, 30)}
             if c < 0.5:
                 return self._intperm({"t": "C.Custom", "d": d, "u": rng.choice(["haar", "haar", "shift"]), "seed": rng.randint(1, 30)})
-            return {"t": "C.Expr", "d": d, "form": rng.choice(["expm_herm", "np_leaf", "mmult"]), "theta": round(rng.uniform(-3, 3), 6), "seed": rng.randint(1, 30)}
+            form = rng.choice(["expm_herm", "np_leaf", "mmult", "tree", "tree"])
+            return {"t": "C.Expr", "d": d, "form": form, "theta": round(rng.uniform(-3, 3), 6), "seed": rng.randint(1, 30 if form != "tree" else 4000)}
         # Fock
         s = actions.support(pre, sub) or 0
         b = pre.block_of(sub)
@@ -772,11 +846,17 @@ class Gen:
         dims = [pre.sub[n]["dims"] for n in on]
         if any(d <= 0 for d in dims) or int(np.prod(dims)) > 24 or self._merged_dim(pre, on) > 160:
             return None
-        r = {"do": "kraus", "entry": entry, "ch": self._chan(dims), "on": on, "arr": self.rng.choice(["jnp", "jnp", "np", "real", "int", "npint"]), **extra}
+        r = {"do": "kraus", "entry": entry, "ch": self._chan(dims), "on": on, "arr": self.rng.choice(["jnp", "jnp", "np", "real", "int", "npint", "mixed", "npmixed"]), **extra}
         if entry in ("state", "ce") and self.rng.random() < 0.2:
             r["idc"] = False  # identity_check=False: the (complete) set must be applied all the same
         if entry == "state" and self.rng.random() < 0.25:
             r["style"] = "pos"
+        if self.rng.random() < 0.15:
+            r["flagtype"] = "np"
+        if r["arr"] == "np" and self.fault_rate and self.rng.random() < 0.35:
+            # right afterwards the caller changes those arrays in place and hands them in again
+            f = {"do": "fault", "kind": "kraus_not_tp", "how": "inplace", "on": list(on), "entry": entry, "client": client, **extra}
+            self.queue.append(self._emit(f))
         return r
 
     def _mset(self, dims):
@@ -806,10 +886,12 @@ class Gen:
         dims = [pre.sub[n]["dims"] for n in on]
         if any(d <= 0 for d in dims) or int(np.prod(dims)) > 16 or self._merged_dim(pre, on) > 160:
             return None
-        r = {"do": "povm", "entry": entry, "m": self._mset(dims), "on": on, "destr": self.rng.random() < 0.5, "arr": self.rng.choice(["jnp", "jnp", "np", "real", "int", "npint"]), **extra}
+        r = {"do": "povm", "entry": entry, "m": self._mset(dims), "on": on, "destr": self.rng.random() < 0.5, "arr": self.rng.choice(["jnp", "jnp", "np", "real", "int", "npint", "mixed", "npmixed"]), **extra}
         if entry == "state":
             r["partial"] = self.rng.random() < 0.5
         r["style"] = self.rng.choice(["kw", "min", "min", "pos"])
+        if self.rng.random() < 0.2:
+            r["flagtype"] = "np"
         return r
 
     def _measure(self, world, pre, client):
@@ -833,13 +915,13 @@ class Gen:
                 on = [e + ".f", e + ".p"]
                 rng.shuffle(on)
                 sep = False
-            return {"do": "measure", "entry": "env", "env": e, "on": on, "sep": sep, "destr": destr, "style": rng.choice(["kw", "min"])}
+            return {"do": "measure", "entry": "env", "env": e, "on": on, "sep": sep, "destr": destr, "style": rng.choice(["kw", "min"]), **({"flagtype": "np"} if rng.random() < 0.2 else {})}
         on = [sub]
         if entry == "ce" and rng.random() < 0.5:
             cand = [n for n in self._class_subs(world, pre, extra["ce"]) if n != sub]
             rng.shuffle(cand)
             on += cand[: rng.randint(1, 2)]
-        return {"do": "measure", "entry": entry, "on": on, "sep": sep, "destr": destr, "style": rng.choice(["kw", "min", "min", "pos"]), **extra}
+        return {"do": "measure", "entry": entry, "on": on, "sep": sep, "destr": destr, "style": rng.choice(["kw", "min", "min", "pos"]), **({"flagtype": "np"} if rng.random() < 0.2 else {}), **extra}
 
     def _struct(self, world, pre, client):
         rng = self.rng
@@ -896,6 +978,12 @@ class Gen:
         if not subs:
             return None
         sub = rng.choice(subs)
+        b0 = pre.block_of(sub)
+        if b0 is not None and b0.kind == "ps" and len(b0.members) >= 2 and world.ce_of.get(sub.split(".")[0]) and rng.random() < 0.3:
+            mem = [m for m in b0.members]
+            k = rng.randint(1, min(3, len(mem) - 1))
+            on = sorted(rng.sample(mem, k), key=mem.index)
+            return {"do": "trace_out", "entry": "ps", "ce": world.ce_of[sub.split(".")[0]], "on": on}
         entry, extra = self._entry_for(world, pre, sub)
         on = [sub]
         if entry == "env" and rng.random() < 0.4 and actions._live(pre, world.partner(sub)):
@@ -1073,7 +1161,7 @@ class Gen:
                     r["single"] = rng.random() < 0.5
             else:
                 r["delta"] = rng.choice([1, 1, -1])
-                r["shape"] = rng.choice(["square", "square", "tall", "wide", "mixed", "vector"])
+                r["shape"] = rng.choice(["square", "square", "tall", "wide", "mixed", "vector", "empty"])
             return r
         if k == "custom_op_wrong_shape":
             cand = [s for s in subs if world.kind(s) in ("P", "C")]
@@ -1143,4 +1231,4 @@ class Gen:
         return None
 
 
-SCENARIOS = ["bell", "ghz", "bs2", "mz", "envcomb", "two_ps", "merged", "mixed_custom", "cancel", "weaknoise", "recombine", "equalmeasure"]
+SCENARIOS = ["bell", "ghz", "bs2", "mz", "envcomb", "two_ps", "merged", "mixed_custom", "cancel", "weaknoise", "recombine", "equalmeasure", "lopsided", "paulinoise"]
